@@ -224,7 +224,7 @@ class RunWeekly(RunPeriod):
     """
 
     def compare_dates(self, now, date_to_compare):
-        if now.year != date_to_compare.year or now.week != date_to_compare.week:
+        if now.isocalendar()[:2] != date_to_compare.isocalendar()[:2]:
             return True
         return False
 
